@@ -133,7 +133,8 @@ class Check:
                 try:
                     r = subprocess.run(cmd, stdout=subprocess.PIPE, stderr=subprocess.STDOUT, text=True, timeout=40)
                     lines = [l.strip() for l in r.stdout.splitlines() if l.strip()]
-                    got = lines[0] if lines else "?"
+                    verdicts = [l for l in lines if l in ("sat", "unsat", "unknown")]
+                    got = verdicts[0] if verdicts else "?"
                     if any(l.startswith("(error") for l in lines):
                         got = "error"
                 except subprocess.TimeoutExpired:
